@@ -211,7 +211,14 @@ func dethashMain(args []string) int {
 			if v := firstOf(res, p); v != nil {
 				sig = v.Signature
 			}
-			fmt.Printf("%s %d %s steps=%d events=%d segs=%d viol=%s\n", p, i, res.LogHash, res.Steps, res.Events, len(res.Segs), sig)
+			// the recorded schedule (with its kill decisions) replays to the
+			// very same event log
+			rh := "-"
+			if part.Exec == nil && res.Spec != nil {
+				r2 := ExecuteAny(ToReplay(res.Spec, res), opts)
+				rh = r2.LogHash
+			}
+			fmt.Printf("%s %d %s steps=%d events=%d segs=%d viol=%s replay=%s\n", p, i, res.LogHash, res.Steps, res.Events, len(res.Segs), sig, rh)
 		}
 	}
 	return 0
@@ -273,6 +280,25 @@ func selftestMain(args []string) int {
 			fmt.Printf("selftest determinism: FAIL: run %d (different GOMAXPROCS) differs from run 0\n%s", i, firstDiff(outs[0], outs[i]))
 			ok = false
 		}
+	}
+	replayed := 0
+	for _, l := range strings.Split(string(outs[0]), "\n") {
+		f := strings.Fields(l)
+		if len(f) < 8 || !strings.HasPrefix(f[len(f)-1], "replay=") {
+			continue
+		}
+		rh := strings.TrimPrefix(f[len(f)-1], "replay=")
+		if rh == "-" {
+			continue
+		}
+		replayed++
+		if rh != f[2] {
+			fmt.Printf("selftest determinism: FAIL: replaying the recorded schedule of %s run %s gives event-log hash %s, the live run gave %s\n", f[0], f[1], rh, f[2])
+			ok = false
+		}
+	}
+	if ok {
+		fmt.Printf("selftest replay: ok (%d recorded schedules, crash decisions included, replay to the identical event log)\n", replayed)
 	}
 	if !bytes.Equal(sortLines(outs[0]), split) {
 		fmt.Printf("selftest determinism: FAIL: executing the runs split across two processes gives different hashes\n%s", firstDiff(sortLines(outs[0]), split))
